@@ -6,6 +6,7 @@ import (
 	sdk "github.com/cosmos/cosmos-sdk/types"
 	sdkgovtypes "github.com/cosmos/cosmos-sdk/x/gov/types"
 	sdkminttypes "github.com/cosmos/cosmos-sdk/x/mint/types"
+	slashingtypes "github.com/cosmos/cosmos-sdk/x/slashing/types"
 	stakingtypes "github.com/cosmos/cosmos-sdk/x/staking/types"
 
 	"github.com/certikfoundation/shentu/app"
@@ -81,7 +82,8 @@ func ShieldProfile(seed int64, out *Recorder, nOps int) *Chain {
 	stakes := [][]int64{{1000000000, 1000000000, 1000000000}, {3000000000, 1000000000, 500000000}}[rng.Intn(2)]
 	t0 := time.Unix(1600000000, 0).UTC()
 	cfg := GenCfg{Seed: seed, H0: 10, T0: t0, NAcc: 10, NVal: nVal, NCert: 1, AdminIdx: 9,
-		Balance: 1000000000000, ValStake: stakes, Patch: shieldPatch(sc, 2*unit, t0)}
+		Balance: 1000000000000, ValStake: stakes, Patch: shieldPatch(sc, 2*unit, t0), Votes: true,
+		MinSelf: [][]int64{{1}, {900000000, 1, 1}, {1, 400000000, 1}}[rng.Intn(3)]}
 	c := NewChain(cfg, out)
 	c.Rng = rng
 	out.Genesis(c, D{"profile": "shield", "unit": unit.Nanoseconds()})
@@ -133,6 +135,21 @@ func ShieldProfile(seed int64, out *Recorder, nOps int) *Chain {
 			}
 			if !c.Advance(dts[j]) {
 				return c
+			}
+		case r < 17 && rng.Intn(3) == 0: // a validator goes offline (downtime: jailed and slashed after a few blocks) or comes back
+			v := rng.Intn(cfg.NVal)
+			op := Hex(c.Accts[v].Addr)
+			if c.Offline[op] {
+				delete(c.Offline, op)
+				c.Do(v, []D{{"t": "slashing.unjail", "val": op}}, slashingtypes.NewMsgUnjail(sdk.ValAddress(c.Accts[v].Addr)))
+			} else if len(c.Offline) == 0 {
+				c.Offline[op] = true
+				out.Note(D{"k": "note", "offline": op, "h": c.Height})
+				for j := 0; j < 5; j++ { // the window is six blocks
+					if !c.Advance(time.Second) {
+						return c
+					}
+				}
 			}
 		case r < 28: // deposit collateral
 			p := providers[rng.Intn(len(providers))]
@@ -332,6 +349,9 @@ func ShieldProfile(seed int64, out *Recorder, nOps int) *Chain {
 				lossCoins = sdk.Coins{sdk.Coin{Denom: Bond, Amount: sdk.NewInt(loss)}}
 			}
 			content := shieldtypes.NewShieldClaimProposal(poolID, lossCoins, purchaseID, "ev", "desc", contentProposer)
+			if rng.Intn(8) == 0 { // the proposal id inside the content is the chain's to assign
+				content.ProposalId = uint64(1 + rng.Intn(6))
+			}
 			c.SubmitProposal(signer, content, D{"kind": "claim", "pool": poolID, "purchase": purchaseID, "loss": loss, "contentProposer": Hex(contentProposer)}, coin(dep))
 		case r < 96: // votes
 			props := c.App.VerifGovKeeper().GetProposals(ctx)
